@@ -288,9 +288,14 @@ func nilIfEmpty(s []string) []string {
 func eq(a, b interface{}) bool { return apiequality.Semantic.DeepEqual(a, b) }
 
 func TestPropUpdateConventions(t *testing.T) {
+	stats.Check(t, stats.N(30000, 400000), propUpdateConventions())
+}
+
+// propUpdateConventions: the property of TestPropUpdateConventions (shared with the native fuzz target FuzzUpdateConventions).
+func propUpdateConventions() func(t *rapid.T) {
 	sub := stats.NewSub("update-conventions", "rapid: pair (stored, submitted) of UpstreamCluster / RateLimitCondition (one stored object in four is pending deletion: deletionTimestamp set, finalizers remaining) with any subset of {labels, annotations, spec, status, generation, other metadata} re-drawn for the submitted object (including 'nothing differs'); main update through rest.BeforeUpdate with the registered strategy and status update with the registered status strategy; oracle: status update leaves spec+labels = stored, main update leaves status = stored (kinds with a status subresource), generation' = stored+1 iff spec or annotations differ (Semantic.DeepEqual) else stored; non-trivial = pair differs in >=1 part but not in spec/annotations, or differs in spec/annotations and in another part too; distinct by FNV-64 of (kind, stored, submitted)")
 	ks := kinds()
-	stats.Check(t, stats.N(30000, 400000), func(t *rapid.T) {
+	return func(t *rapid.T) {
 		k := ks[rapid.IntRange(0, len(ks)-1).Draw(t, "kind")]
 		p := genPlan(t)
 		stored, submitted := k.newPair(t, p)
@@ -362,7 +367,13 @@ func TestPropUpdateConventions(t *testing.T) {
 		if sub.WantSample() && !specDiff && !annDiff && other {
 			sub.Sample(map[string]interface{}{"kind": k.name, "stored": fmt.Sprintf("%+v", stored), "submitted": fmt.Sprintf("%+v", submitted), "generation_after_main_update": k.meta(new1).Generation})
 		}
-	})
+
+	}
+}
+
+// FuzzUpdateConventions: the same property driven by Go's coverage-guided fuzzer (thorough tier): the fuzzer's bytes are rapid's bit stream, so every input comes from the same generators and is judged by the same oracle.
+func FuzzUpdateConventions(f *testing.F) {
+	f.Fuzz(rapid.MakeFuzz(propUpdateConventions()))
 }
 
 func TestPropCreateConventions(t *testing.T) {
